@@ -35,6 +35,8 @@ SIZED = [
     ("int ARRAY", "int[]", None), ("double precision", "double precision", None), ("character varying(30)", "character varying", 30),
     ("character varying (30)", "character varying", 30), ("timestamp(6)", "timestamp", 6), ("float(53)", "float", 53), ("bit varying(5)", "bit varying", 5),
 ]
+SIZED += [("time(0)", "time", 0), ("TIMESTAMP(0)", "TIMESTAMP", 0), ("varchar(0)", "varchar", 0), ("character varying( 0 )", "character varying", 0),
+          ("numeric(00)", "numeric", 0), ("decimal(0,0)", "decimal", [0, 0]), ("datetime2(0)", "datetime2", 0), ("numeric(10,0)", "numeric", [10, 0])]
 # size form x array suffix product (a size followed by one or more dimensions keeps size *and* every dimension)
 for _b in ("varchar", "decimal", "character varying", "numeric", "text", "int"):
     for _sz, _szv in (("", None), ("(10)", 10), ("(12,4)", [12, 4]), ("(12, 4)", [12, 4])):
